@@ -10,6 +10,6 @@ def calc_ast_hash(a: ast.AST) -> str:
     including the input datasets
     """
 
-    b = bytearray()
-    b.extend(map(ord, ast.dump(a)))
-    return hashlib.md5(b).hexdigest()
+    # utf-8: the dump contains the text of every string constant, which can be any character
+    # (a bytearray of the characters' code points only holds the ones below 256)
+    return hashlib.md5(ast.dump(a).encode("utf-8")).hexdigest()
